@@ -57,6 +57,11 @@ DISTINCT_UNION = inf_ctx.MultiplicityInfo(
     own=qltypes.Multiplicity.UNIQUE,
     disjoint_union=True,
 )
+FRESH_OBJECTS = inf_ctx.MultiplicityInfo(
+    own=qltypes.Multiplicity.UNIQUE,
+    disjoint_union=True,
+    fresh_objects=True,
+)
 
 
 @dataclasses.dataclass(frozen=True, eq=False)
@@ -455,10 +460,22 @@ def __infer_oper_call(
 
         arg_type = ctx.env.set_types[ir.args[0].expr]
         if isinstance(arg_type, s_objtypes.ObjectType):
-            types: List[s_objtypes.ObjectType] = [
-                downcast(s_objtypes.ObjectType, ctx.env.set_types[arg.expr])
-                for arg in ir.args.values()
-            ]
+            # Compare the material types: a view (e.g. the type of a
+            # FOR result or of a shaped set) has no descendants of
+            # its own, but ranges over the same objects as its base.
+            types: List[s_objtypes.ObjectType] = []
+            for arg in ir.args.values():
+                t = downcast(
+                    s_objtypes.ObjectType, ctx.env.set_types[arg.expr])
+                _, mt = t.material_type(ctx.env.schema)
+                components = mt.get_union_of(ctx.env.schema)
+                if components:
+                    types.extend(
+                        c.material_type(ctx.env.schema)[1]
+                        for c in components.objects(ctx.env.schema)
+                    )
+                else:
+                    types.append(mt)
 
             lineages = [
                 (t,) + tuple(t.descendants(ctx.env.schema))
@@ -474,7 +491,10 @@ def __infer_oper_call(
                 if (
                     result.is_empty()
                     or types_disjoint
-                    or (result.disjoint_union and m.disjoint_union)
+                    # Only freshly created objects are known to be
+                    # disjoint from each other; disjoint_union alone
+                    # speaks about the iterations of an enclosing FOR.
+                    or (result.fresh_objects and m.fresh_objects)
                 ):
                     result = m
                 else:
@@ -750,7 +770,7 @@ def __infer_insert_stmt(
 
     _infer_mutating_stmt(ir, scope_tree=scope_tree, ctx=ctx)
 
-    return DISTINCT_UNION
+    return FRESH_OBJECTS
 
 
 @_infer_multiplicity.register
